@@ -408,6 +408,13 @@ func randChain(rng *rand.Rand, depth int) ([]layer, string, bool) {
 	return ls, kind, ctx
 }
 
+// backendTimeout: an error of a custom backend that says "time-out" the way net errors do.
+type backendTimeout struct{}
+
+func (backendTimeout) Error() string   { return "backend did not answer" }
+func (backendTimeout) Timeout() bool   { return true }
+func (backendTimeout) Temporary() bool { return true }
+
 type condition struct {
 	conv string
 	name string
@@ -424,11 +431,24 @@ func conditions() []condition {
 			cs = append(cs, condition{conv, name, w(e)})
 		}
 	}
+	// conditions as the backend hands them over (no further wrapping by a caller in between)
+	bare := func(conv, name string, e error) { cs = append(cs, condition{conv, name, e}) }
 	add("fs", "nil", nil)
 	add("fs", "ctx-cancelled", context.Canceled)
 	add("fs", "ctx-deadline", context.DeadlineExceeded)
 	add("fs", "deadline", os.ErrDeadlineExceeded)
 	add("fs", "deadline", errors.New("read tcp: i/o timeout"))
+	// time-outs a backend reports only through the Timeout() method of its error (a hung network mount)
+	bare("fs", "deadline", syscall.ETIMEDOUT)
+	bare("fs", "deadline", pe(syscall.ETIMEDOUT))
+	bare("fs", "deadline", &os.SyscallError{Syscall: "read", Err: syscall.ETIMEDOUT})
+	bare("fs", "deadline", &os.LinkError{Op: "rename", Old: "/x", New: "/y", Err: syscall.ETIMEDOUT})
+	bare("fs", "deadline", backendTimeout{})
+	add("fs", "exists", syscall.EEXIST)
+	add("fs", "closed-or-denied", syscall.EPERM)
+	add("fs", "closed-or-denied", &os.LinkError{Op: "rename", Old: "/x", New: "/y", Err: syscall.EACCES})
+	add("fs", "missing", syscall.ENOENT)
+	add("fs", "missing", &os.SyscallError{Syscall: "stat", Err: syscall.ENOENT})
 	add("fs", "exists", os.ErrExist)
 	add("fs", "exists", afero.ErrFileExists)
 	add("fs", "exists", afero.ErrDestinationExists)
